@@ -25,6 +25,7 @@ type stmtObs struct {
 	First     map[string]int64
 	Last      map[string]int64
 	Secondary bool   // a query that the engine resolved through a secondary index
+	SecIndex  string // … and the name of that index
 	Frontier  uint64 // last precommitted store tx id after the statement returned
 }
 
@@ -127,14 +128,16 @@ func (d *db) query(ctx context.Context, tx *sql.SQLTx, s *m.Stmt) ([]m.Row, erro
 	return rows, err
 }
 
-func (d *db) query2(ctx context.Context, tx *sql.SQLTx, s *m.Stmt) (_ []m.Row, secondary bool, _ error) {
+func (d *db) query2(ctx context.Context, tx *sql.SQLTx, s *m.Stmt) (_ []m.Row, secIndex string, _ error) {
 	rd, err := d.eng.Query(ctx, tx, s.SQL(d.sch[s.Table]), nil)
 	if err != nil {
-		return nil, false, err
+		return nil, "", err
 	}
 	defer rd.Close()
 	if sp := rd.ScanSpecs(); sp != nil && sp.Index != nil {
-		secondary = !sp.Index.IsPrimary()
+		if !sp.Index.IsPrimary() {
+			secIndex = sp.Index.Name()
+		}
 	}
 	var rows []m.Row
 	for {
@@ -143,7 +146,7 @@ func (d *db) query2(ctx context.Context, tx *sql.SQLTx, s *m.Stmt) (_ []m.Row, s
 			break
 		}
 		if err != nil {
-			return nil, secondary, err
+			return nil, secIndex, err
 		}
 		out := make(m.Row, len(row.ValuesByPosition))
 		for i, v := range row.ValuesByPosition {
@@ -151,11 +154,11 @@ func (d *db) query2(ctx context.Context, tx *sql.SQLTx, s *m.Stmt) (_ []m.Row, s
 		}
 		rows = append(rows, out)
 	}
-	if s.Kind == m.Select && (s.Hint != "" || secondary) {
+	if s.Kind == m.Select && (s.Hint != "" || secIndex != "") {
 		// the order through a secondary index is not what this property is about
 		sort.SliceStable(rows, func(i, j int) bool { return rows[i][0].(int64) < rows[j][0].(int64) })
 	}
-	return rows, secondary, nil
+	return rows, secIndex, nil
 }
 
 func snapshotCounters(tx *sql.SQLTx, o *stmtObs) {
@@ -193,7 +196,8 @@ func (d *db) runTx(p *txProg, sess, seq int) *txObs {
 		var so stmtObs
 		d.op(func(ctx context.Context) {
 			if s.IsQuery() {
-				so.Rows, so.Secondary, err = d.query2(ctx, tx, s)
+				so.Rows, so.SecIndex, err = d.query2(ctx, tx, s)
+				so.Secondary = so.SecIndex != ""
 			} else {
 				var ntx *sql.SQLTx
 				ntx, _, err = d.eng.Exec(ctx, tx, s.SQL(d.sch[s.Table]), nil)
